@@ -719,13 +719,15 @@ def resume_pickled_item(item, col):
 
     name = item["routine"]
     firsts = ["cccccc", "ccTccc", "cUcccT", "ccc"]
-    for cap, first in itertools.product(item["caps"], firsts):
-        second = "cTcc"
+    from vlib import poison
+
+    poison.install()  # slots that a reload leaves unwritten hold a sentinel, not whatever the heap held
+    for cap, first, second in itertools.product(item["caps"], firsts, ["c", "cTcc"]):
         cfg = dict(buffer_size=cap, env_horizon=len(first) + 3, seed=1 + item["seed"], net_seed=item["seed"], learning_starts=10**6)
         if name in D.DISCRETE:
             cfg.update(batch_size=100, learning_starts=0)
         r1 = D.run(name, first, **cfg)
-        col.tick(1, (name, cap, first))
+        col.tick(1, (name, cap, first, second))
         if r1.error is not None:
             col.outcome("runs_aborted_by_env_guard:" + r1.error)
             continue
